@@ -1889,6 +1889,14 @@ FINALIZE:
 	return rs, nil
 }
 
+// AsError turns a recovered panic value into an error
+func AsError(r any) error {
+	if err, ok := r.(error); ok {
+		return err
+	}
+	return fmt.Errorf("%v", r)
+}
+
 func (query *Query) execAndPostProcess() (result any, err error) {
 	rs, err := query.exec()
 	if err != nil {
